@@ -45,7 +45,8 @@ def gen_hier(rng, opts=None):
             cnt[0] += 1
             return f"{pre}{cnt[0]}"
 
-        for _ in range(rng.randint(1, 3)):
+        # (a sub-module may have no ports at all: a self-contained block with internal nets only)
+        for _ in range(rng.randint(1, 3) if (k == nmods - 1 or rng.random() < 0.8) else 0):
             sigs.append({"n": fresh("p"), "w": rng.choice([1, 1, 1, 2, 3]), "port": True, "dir": rng.choice(["input", "output", "inout", "none"])})
         for _ in range(rng.randint(0, 2)):
             sigs.append({"n": fresh("s"), "w": rng.choice([1, 1, 2, 3]), "port": False, "dir": "none"})
@@ -326,8 +327,47 @@ def judge(case, im, mo, sem_src, sem_flat):
             yield ("corr", "model's walk fails, implementation returned a module")
 
 
+def impl_after(job):
+    """flatten(design) after other designs were flattened in the same process: what comes back, as impl_flatten describes it"""
+    for earlier in job["earlier"]:
+        impl_flatten(earlier)
+    return impl_flatten(job["case"])
+
+
+def history_stream(ctx, cases):
+    """flatten has no memory: the result for a design is the same whatever was flattened before in the process."""
+    rep, rng = ctx.rep, ctx.rng
+    jobs = []
+    for c in cases:
+        earlier = [rng.choice(cases) for _ in range(rng.randint(1, 3))]
+        if rng.random() < 0.5:
+            # a sibling of the design itself: same names and paths, every width one more
+            sib = copy.deepcopy(c)
+            for m in sib["design"]["modules"]:
+                for sg in m["sigs"]:
+                    sg["w"] += 1
+            for m in sib["design"]["modules"]:
+                for i in m["insts"]:
+                    if i["of"]["k"] == "leaf":
+                        for p in i["of"]["ports"]:
+                            p["w"] += 1
+                        i["of"]["py"] = {"k": "ext", "name": "W" + i["of"]["kind"].replace(".", "_")}
+                        i["of"]["kind"] = ".W" + i["of"]["kind"].replace(".", "_")
+            earlier.append(sib)
+        jobs.append({"case": c, "earlier": earlier})
+    after = common.pmap_fresh(impl_after, jobs)
+    alone = common.pmap_fresh(impl_flatten, cases)
+    strip = lambda im: {k: v for k, v in im.items() if k not in ("refused",)} if "refused" not in im else {"refused_type": im.get("refused_type")}
+    for c, a, b in zip(cases, after, alone):
+        rep.count("history", json.dumps(c["design"]))
+        if strip(a) != strip(b):
+            from props import c17
+            rep.fail("pred", {"stream": "history", "case": c}, {"why": "flatten(design) depends on what was flattened before in the process",
+                     "first_difference": c17.first_diff(strip(b), strip(a))})
+
+
 def run_cases(ctx, cases):
-    impls = common.pmap(impl_flatten, cases, chunk=4)
+    impls = common.pmap_fresh(impl_flatten, cases)  # one design per process: flatten after flatten is the history stream's business
     lines = []
     for c, im in zip(cases, impls):
         lines.append(model_line(c["design"]))
@@ -410,6 +450,7 @@ def run(ctx):
                         rep.fail("pred", {"stream": c.get("stream"), "case": c}, {"detail": v[1], "found_by": "failing-input search"})
                         found = True
         rep.extra["failing_input_search"] = {"designs": extra, "found": found, "seconds": round(time.time() - t0, 1)}
+    history_stream(ctx, [c for c in cases if c.get("stream") != "colon_names"][: (60 if ctx.quick else 1000)])
     rep.extra["flatten_stats"] = stats
     rep.sample({"design": cases[3]["design"]})
 
